@@ -131,7 +131,9 @@ def wt1(F, R):
                 if t.get("callee_local") and c in loaders:
                     return ("load", f.loc(b), c.split("::")[-1])
                 # writer call through a tainted &mut
-                if not any(c.endswith(r) or path_matches(c, r) for r in READERS):
+                # consuming adaptors of an iterator over *shared* chunks / bytes only read the block (the &mut is the iterator's own state)
+                ro_iter = c.startswith("core::iter::") and any(x in t.get("callee_full", "") for x in ("ChunksExact<", "slice::Iter<", "Chunks<", "Enumerate<core::slice::ChunksExact<", "Enumerate<core::slice::Iter<")) and "Mut<" not in t.get("callee_full", "")
+                if not ro_iter and not any(c.endswith(r) or path_matches(c, r) for r in READERS):
                     for i, a in enumerate(t["args"]):
                         if _mut_ref_arg(f, t, i) and tainted(f.term_of_operand(a, b)):
                             mods[(b, None)] = "call " + c.split("::")[-1]
@@ -308,6 +310,14 @@ def fat_arms(fn):
     return arms
 
 
+def fat_slices(fn):
+    """Per FAT type, the blocks that can execute when self.fat_specific_info is of that type (every match on it decided):
+    shared code before / between / after the per-type arms belongs to both slices."""
+    from .ev import specialise_enum
+    is_fsi = lambda x: x[0] == "place" and x[2] and [e for e in x[2] if isinstance(e, str) and e != "*"][-1:] == ["fat_specific_info"]
+    return {T: fn.reach([0], cut_edges=specialise_enum(fn, is_fsi, ["Fat16", "Fat32"], T)) for T in ("Fat16", "Fat32")}
+
+
 def _update_fat_calls(fn):
     out = []
     for b, t in fn.calls():
@@ -353,14 +363,26 @@ def ft1(F, R):
       doc="update_fat: per FAT type the block read is lba_start + fat_start.offset_bytes(cluster*k); the duplicate index is lba_start + second_fat_start.offset_bytes(same offset) exactly when second_fat_start is Some; every Ok path writes back with the duplicate when present")
 def ft2(F, R):
     fn = F.fn(FATVOL + "::update_fat")
-    arms = fat_arms(fn)
+    arms = fat_slices(fn)
+
+    def in_slice(term, blocks):
+        """term with locals that hold one constant in this FAT type's slice replaced by that constant (`entry_size`)"""
+        if not isinstance(term, tuple) or not term:
+            return term
+        if term[0] == "var":
+            cs_ = {strip_refs(fn.term_of_rvalue(d_[3], d_[1]))[1] for d_ in fn.defs().get(term[1], []) if d_[0] == "assign" and d_[1] in blocks and strip_refs(fn.term_of_rvalue(d_[3], d_[1]))[0] == "c"}
+            nd_ = [d_ for d_ in fn.defs().get(term[1], []) if d_[1] in blocks]
+            if len(cs_) == 1 and all(d_[0] == "assign" and strip_refs(fn.term_of_rvalue(d_[3], d_[1]))[0] == "c" for d_ in nd_):
+                return ("c", next(iter(cs_)), None)
+            return term
+        return tuple(in_slice(x, blocks) if isinstance(x, tuple) else x for x in term)
     for arm, k in (("Fat16", 2), ("Fat32", 4)):
         rms = [(b, t) for b, t in fn.calls() if b in arms[arm] and call_matches(t, ("BlockCache::read_mut",))]
         if len(rms) != 1:
-            R.bad(fn, arm + ":read_mut", "expected exactly one read_mut in the %s arm, found %d" % (arm, len(rms)), kind="anchor-missing")
+            R.bad(fn, arm + ":read_mut", "expected exactly one read_mut on the %s path, found %d" % (arm, len(rms)), kind="anchor-missing")
             continue
         b, t = rms[0]
-        idx = fn.term_of_operand(t["args"][1], b)
+        idx = in_slice(fn.term_of_operand(t["args"][1], b), arms[arm])
         pat = ("call", "Add::add", [("place", ("arg", 1), ("*", "lba_start")),
                                    ("call", "BlockCount::offset_bytes", [("place", ("arg", 1), ("*", "fat_start")), "$off"])])
         env = tmatch(idx, pat)
@@ -370,7 +392,7 @@ def ft2(F, R):
         dups = []
         for bb, ii, s in fn.stmts():
             if bb in arms[arm] and s["k"] == "Assign" and not s["p"]["proj"]:
-                v = fn.term_of_rvalue(s["rv"], bb)
+                v = in_slice(fn.term_of_rvalue(s["rv"], bb), arms[arm])
                 if v[0] == "agg" and v[2] and v[2].endswith("Option::Some") and has_sub(v, lambda q: q[0] == "call" and q[1] and path_matches(q[1], "BlockCount::offset_bytes")):
                     dups.append((bb, ii, v))
         okd = False
@@ -385,7 +407,7 @@ def ft2(F, R):
         from .mir import inline_closure
         for bb, t2 in fn.calls():
             if bb in arms[arm] and (callee_of(t2) or "").endswith("Option::map"):
-                ct = fn.call_term(t2, bb)
+                ct = in_slice(fn.call_term(t2, bb), arms[arm])
                 if is_geo(ct[2][0]):
                     body = inline_closure(F, ct[2][1], [("place", strip_refs(ct[2][0]), ("as:Some", "0"))])
                     e2 = tmatch(body, pat2) if body is not None else None
@@ -410,7 +432,7 @@ def ft2(F, R):
 
 def _arm_consts(fn, blocks):
     """Width-related constants used inside a set of blocks."""
-    sig = {"mul": set(), "rw": set(), "extent": set(), "stride": set(), "bound": set(), "mask": set()}
+    sig = {"mul": set(), "rw": set(), "extent": set(), "stride": set(), "bound": set(), "mask": set(), "chunk": set()}
     for b in sorted(blocks):
         blk = fn.blocks[b]
         for s in blk["stmts"]:
@@ -419,6 +441,11 @@ def _arm_consts(fn, blocks):
             rv = s["rv"]
             if rv["k"] == "BinaryOp":
                 l, r = fn.term_of_operand(rv["l"], b), fn.term_of_operand(rv["r"], b)
+                # a width held in a local (`let entry_size = match fat type { .. => 2, .. => 4 }`): its definitions in these blocks
+                if strip_refs(r)[0] == "var":
+                    cs_ = {strip_refs(fn.term_of_rvalue(d_[3], d_[1]))[1] for d_ in fn.defs().get(strip_refs(r)[1], []) if d_[0] == "assign" and d_[1] in blocks and strip_refs(fn.term_of_rvalue(d_[3], d_[1]))[0] == "c"}
+                    if len(cs_) == 1:
+                        r = ("c", next(iter(cs_)), None)
                 op = rv["op"].replace("WithOverflow", "")
                 if op == "Mul" and r[0] == "c" and last_field(strip_refs(l)) == "0":
                     sig["mul"].add(r[1])
@@ -446,6 +473,10 @@ def _arm_consts(fn, blocks):
             for nm, w in (("read_u16", 2), ("write_u16", 2), ("read_u32", 4), ("write_u32", 4)):
                 if c.endswith("ByteOrder::" + nm):
                     sig["rw"].add(w)
+            if c.endswith(("chunks_exact", "chunks_exact_mut", "slice::chunks")) and len(t["args"]) == 2:
+                n_ = fn.term_of_operand(t["args"][1], b)
+                if n_[0] == "c" and isinstance(n_[1], int):
+                    sig["chunk"].add(n_[1])         # the scan walks the sector in entry-sized chunks
             if c.endswith("RangeInclusive::new"):
                 hi = fn.term_of_operand(t["args"][1], b)
                 e = tmatch(hi, ("bin", "Add", "_", ("c", "_")))
@@ -463,21 +494,32 @@ def ft3(F, R):
     expect = {"Fat16": {"mul": {2}, "rw": {2}, "extent": {1}}, "Fat32": {"mul": {4}, "rw": {4}, "extent": {3}}}
     for name in ("update_fat", "next_cluster", "find_next_free_cluster"):
         fn = F.fn(FATVOL + "::" + name)
-        arms = fat_arms(fn)
+        arms0 = fat_arms(fn)
+        arms = fat_slices(fn)
         for arm in ("Fat16", "Fat32"):
-            if not arms[arm]:
+            if not arms0[arm]:
                 R.bad(fn, arm + ":arm", "no %s arm found" % arm, kind="anchor-missing")
                 continue
             sig = _arm_consts(fn, arms[arm])
-            exp = dict(expect[arm])
             k = 2 if arm == "Fat16" else 4
-            if name == "find_next_free_cluster":
-                exp["stride"] = {k}
-                exp["bound"] = {512 - k}
+            # every width indicator that is present says k, and the essential ones are present: the byte offset is
+            # cluster * k, the entry is read / written with the k-byte accessor, and whatever delimits one entry in the
+            # sector (an inclusive range of extent k-1, a stride of k with a last offset of 512-k, or k-byte chunks) agrees
             problems = []
-            for key, want in exp.items():
-                if sig[key] != want:
-                    problems.append("%s=%s (want %s)" % (key, sorted(sig[key]), sorted(want)))
+            for key, conv in (("mul", lambda v: v), ("rw", lambda v: v), ("extent", lambda v: v + 1), ("stride", lambda v: v), ("bound", lambda v: 512 - v), ("chunk", lambda v: v)):
+                if key in ("stride", "bound") and name != "find_next_free_cluster":
+                    continue
+                got_ = {conv(v) for v in sig[key] if not (key == "bound" and v > 512)}
+                if got_ - {k}:
+                    problems.append("%s=%s (entry width %d expected)" % (key, sorted(sig[key]), k))
+            if not sig["mul"]:
+                problems.append("no `cluster * %d` byte offset" % k)
+            if not sig["rw"]:
+                problems.append("no %d-byte read/write of the entry" % k)
+            if not (sig["extent"] or sig["chunk"]):
+                problems.append("the entry's byte range is not delimited (range of extent %d or %d-byte chunks)" % (k - 1, k))
+            if name == "find_next_free_cluster" and not (sig["chunk"] or (sig["stride"] and sig["bound"])):
+                problems.append("the sector scan has no entry-sized step (stride %d up to offset %d, or %d-byte chunks)" % (k, 512 - k, k))
             if arm == "Fat32" and name != "find_next_free_cluster" or (arm == "Fat32" and name == "find_next_free_cluster"):
                 if 0x0FFFFFFF not in sig["mask"]:
                     problems.append("missing 0x0FFF_FFFF mask (got %s)" % sorted(hex(m) for m in sig["mask"]))
